@@ -61,6 +61,8 @@ def make_items():
     items.append(('samp-tid2', 3, tuple(WORDS[4:8]), None))
     # other records of the same thread between the header and the data records / between two data records
     items.append(('samp-mixed', 7, tuple(WORDS[2:10]), None))
+    # a sample window whose END was lost (START, header, data, no END): the next sample of the thread must not inherit anything
+    items.append(('samp-unfinished', 4, tuple(WORDS[8:12]), None))
     # a deep stack: 1000 frames announced, 1002 words supplied
     items.append(('samp', 1000, tuple(0x1000 + (i * 37) % 0x2100 for i in range(1002)), None))
     return items
@@ -76,10 +78,12 @@ def events_of(it):
         return sample_events(it[1], it[2])
     if it[0] == 'samp-noflag':
         return sample_events(it[1], it[2], flags=1)
+    if it[0] == 'samp-unfinished':
+        return sample_events(it[1], it[2])[:-1]
     if it[0] == 'samp-mixed':
         evs = sample_events(it[1], it[2], flags=9)
         # PERF_Event S, UHdr, [THD_Data], UData, [unrelated], UData, PERF_Event E
-        return evs[:2] + [E.ev('PERF_THD_Data', 0, (10, 1, 0, 1))] + evs[2:3] + [E.ev('MACH_WAIT', 0, (0x10, 0, 0, 0))] + evs[3:]
+        return evs[:2] + [E.ev('PERF_THD_Data', 0, (10, 77, 0, 1))] + evs[2:3] + [E.ev('MACH_WAIT', 0, (0x10, 0, 0, 0))] + evs[3:]
     return sample_events(it[1], it[2], tid=2)
 
 
@@ -174,10 +178,10 @@ def judge_permutation(addr_uuid_set, perm, sample_idx):
 class C15(Check):
     pid = 'C15'
     level = 'model_checking'
-    rule = ('all histories of <=3 (quick) / <=4 (thorough) items over 35 item kinds: image announcements (4 addresses incl. adjacent '
+    rule = ('all histories of <=3 (quick) / <=4 (thorough) items over 36 item kinds: image announcements (4 addresses incl. adjacent '
             '0x2000/0x2001, x 2 uuids so that re-announcements with another identity occur), 4 launch windows with nested '
             'map/shared-cache records (cache above, below and between the images), samples with header count {0,1,3,4,5,9,14} x {0,1,2(+)} data records whose words are a-1, a, '
-            'a+1 for every load address plus 0 and 2^64-1, a sample without the user-stack flag, a sample on a second thread, a sample with thread-data and unrelated records between its header and data records, a 1000-frame sample; '
+            'a+1 for every load address plus 0 and 2^64-1, a sample without the user-stack flag, a sample on a second thread, a sample with thread-data and unrelated records between its header and data records, a 1000-frame sample, a sample window whose END was lost; '
             'through TracesParser+CallstacksParser (all histories) and through PyKdebugParser.callstacks on a v2 dump (histories '
             '<=2 quick / <=3 thorough). Plus all alternating histories announcement-sample-announcement-sample (depth 4) over every announcement and the samples with >=4 frames. Plus: for every set of <=4 distinct images all permutations of announcement order give '
             'identical attribution. Reference: linear scan over the list of announced (address, uuid), first identity wins. '
